@@ -1,4 +1,4 @@
-package wire
+package fsreplay
 
 import (
 	"encoding/binary"
